@@ -52,6 +52,10 @@ def _value(r, attr, nice, swarm, cur=None):
     if attr == "dt_cont":
         return float(r.choice([0, 0, 2.5, 5, 10, 20])) if nice else round(r.uniform(0, 30), 2)
     if attr == "htc":
+        if r.random() < swarm.get("p_neg_htc", 0):
+            return -float(r.choice([0.5, 2, 4]))  # physically meaningless but assignable: htr must still be the reciprocal
+        if r.random() < 0.15:
+            return r.choice([1, 2, 5])  # a Python int
         return float(r.choice([0.1, 0.5, 1, 2, 10])) if nice else round(r.uniform(0.01, 20), 3)
     raise AssertionError(attr)
 
@@ -73,7 +77,7 @@ class C19(World):
         "concurrency on this surface): the explored dimension is the call history and aliasing."
     )
     assumptions = [
-        "only the five input attributes (t_supply, t_target, heat_flow, dt_cont, htc) are assigned; htc > 0",
+        "only the five input attributes (t_supply, t_target, heat_flow, dt_cont, htc) are assigned; htc != 0 (negative values at low weight)",
         "constructor/setter calls that raise are recorded, not judged, unless they leave an object violating an invariant",
         "interleaving is at call granularity (single-threaded library)",
     ]
@@ -88,6 +92,7 @@ class C19(World):
             nice=sw.random() < 0.7,
             p_zero_duty=sw.choice([0, 0, 0.02, 0.1]),
             p_neg_duty=sw.choice([0, 0, 0, 0.05]),
+            p_neg_htc=sw.choice([0, 0, 0.08]),
             w_stream=sw.choice([0, 1, 3]),
             w_coll=sw.choice([0, 1, 3]),
             names=sw.choice([2, 4, len(NAMES)]),
@@ -130,7 +135,7 @@ class C19(World):
                 if attr in ("t_supply", "t_target") and not swarm["flip"]:
                     st["keep_dir"] = True  # resolved at execution: value is mirrored so that the direction is kept
             elif op == "set_heat_flow":
-                st = dict(op="set_heat_flow", s=args.randrange(64), v=_duty(args, nice, swarm))
+                st = dict(op="set_heat_flow", s=args.randrange(64), v=_duty(args, nice, swarm), units=args.random() < 0.3)
             elif op == "new_coll":
                 st = dict(op="new_coll")
                 n_c = min(n_c + 1, MAX_COLLS)
@@ -383,6 +388,8 @@ class C19(World):
                     try:
                         if op == "set":
                             setattr(s, attr, v)
+                        elif st.get("units"):
+                            s.set_heat_flow(v, units="kW")
                         else:
                             s.set_heat_flow(v)
                         outcome = "ok"
